@@ -21,10 +21,10 @@ type Op struct {
 	Val     string   `json:"val,omitempty"`
 	Flags   uint32   `json:"flags,omitempty"`
 	TTL     uint32   `json:"ttl,omitempty"`
-	Opaque  uint32   `json:"opaque,omitempty"` // binary: opaque of the request (mget: base, key i gets base+i, noop base+len)
-	QuietW  bool     `json:"quietW,omitempty"` // binary: quiet variant of a write (SETQ ...)
+	Opaque  uint32   `json:"opaque,omitempty"`  // binary: opaque of the request (mget: base, key i gets base+i, noop base+len)
+	QuietW  bool     `json:"quietW,omitempty"`  // binary: quiet variant of a write (SETQ ...)
 	Opaque0 bool     `json:"opaque0,omitempty"` // handler level: every key of a multi-key get carries opaque 0 (as from the text protocol)
-	Port    int      `json:"port,omitempty"`   // 0 main, 1 batch
+	Port    int      `json:"port,omitempty"`    // 0 main, 1 batch
 	Raw     []byte   `json:"raw,omitempty"`
 	Sec     uint32   `json:"sec,omitempty"` // advance
 	// VLen/VSeed describe a generated value (used instead of Val when VLen >= 0 and VGen is set).
